@@ -34,6 +34,9 @@ VARIANTS = {
     "asan":  ("clang", ["-O1", "-g", "-fsanitize=address,undefined", "-fno-sanitize=alignment",
                         "-fno-sanitize-recover=undefined", "-fno-omit-frame-pointer", "-fno-common",
                         "-DBEE2_VERIF_EXACT_BLOB"]),
+    "asanw32": ("clang", ["-O1", "-g", "-fsanitize=address,undefined", "-fno-sanitize=alignment",
+                        "-fno-sanitize-recover=undefined", "-fno-omit-frame-pointer", "-fno-common",
+                        "-DBEE2_VERIF_EXACT_BLOB", "-DBEE2_VERIF_W32"]),
     "asanrel": ("clang", ["-O1", "-g", "-DNDEBUG", "-fsanitize=address,undefined", "-fno-sanitize=alignment",
                         "-fno-sanitize-recover=undefined", "-fno-omit-frame-pointer", "-fno-common",
                         "-DBEE2_VERIF_EXACT_BLOB"]),
@@ -41,6 +44,7 @@ VARIANTS = {
     "fast":  ("gcc",   ["-O2", "-DNDEBUG", "-DSAFE_FAST"]),
     "w32":   ("gcc",   ["-O2", "-DNDEBUG", "-DBEE2_VERIF_W32"]),
     "w32dbg": ("gcc",  ["-O1", "-g", "-DBEE2_VERIF_W32"]),
+    "base":  ("gcc",   []),                      # flags supplied through extra= (C19 thorough product)
     "O0":    ("gcc",   ["-O0", "-DNDEBUG"]),
     "O0dbg": ("gcc",   ["-O0"]),
     "O1":    ("gcc",   ["-O1", "-DNDEBUG"]),
@@ -110,14 +114,15 @@ def build(variant="rel", extra=()):
     """Compile /repo/src into a static library for the variant; cached by tree hash."""
     cc, flags = variant_flags(variant, extra)
     key = tree_hash(cc + " ".join(flags))
-    tag = variant + ("-" + hashlib.sha256(" ".join(extra).encode()).hexdigest()[:6] if extra else "")
+    tag = variant + ("+" + hashlib.sha256(" ".join(extra).encode()).hexdigest()[:6] if extra else "")
     d = os.path.join(BUILD, "lib", "%s-%s" % (tag, key))
     lib = os.path.join(d, "libbee2.a")
     if os.path.exists(lib):
         return d
     # drop stale caches of the same variant
     for old in glob.glob(os.path.join(BUILD, "lib", tag + "-*")):
-        shutil.rmtree(old, ignore_errors=True)
+        if re.match(r"^[0-9a-f]{16}$", os.path.basename(old)[len(tag) + 1:]) and time.time() - os.path.getmtime(old) > 900:
+            shutil.rmtree(old, ignore_errors=True)
     tmp = d + ".tmp%d" % os.getpid()
     os.makedirs(tmp, exist_ok=True)
     jobs, objs = [], []
@@ -149,7 +154,7 @@ class BuildError(Exception):
 def harness(name, sources, variant="rel", extra=(), libs=(), lib_extra=()):
     """Compile harness sources (paths relative to /verif/harness) and link against the library."""
     libdir = build(variant, lib_extra)
-    cc, flags = variant_flags(variant, extra)
+    cc, flags = variant_flags(variant, list(extra) + list(lib_extra))
     srcs = [s if os.path.isabs(s) else os.path.join(HARNESS, s) for s in sources]
     h = hashlib.sha256()
     for s in srcs + glob.glob(os.path.join(HARNESS, "*.h")):
@@ -162,7 +167,8 @@ def harness(name, sources, variant="rel", extra=(), libs=(), lib_extra=()):
     os.makedirs(os.path.dirname(out), exist_ok=True)
     for old in glob.glob(os.path.join(BUILD, "bin", "%s-%s-*" % (name, variant))):
         try:
-            os.remove(old)
+            if time.time() - os.path.getmtime(old) > 900:
+                os.remove(old)
         except OSError:
             pass
     inc = ["-I" + os.path.join(REPO, "include"), "-I" + os.path.join(REPO, "src"), "-I" + HARNESS]
